@@ -19,7 +19,8 @@ ASSUMPTIONS = ["Gymnasium 1.3.0 / MuJoCo 3.13 C engine are the reference MDPs",
                "classic vector fields are recovered from one Gymnasium update away from clipping (float64)",
                "ContinuousMountainCar actions are taken inside the action space (Gymnasium penalises the raw action)"]
 
-CLASSIC = ["cartpole", "mountaincar", "continuous_mountaincar", "acrobot", "cartpole_euler_trajectories", "initial_support"]
+CLASSIC = ["cartpole", "mountaincar", "continuous_mountaincar", "acrobot", "cartpole_euler_trajectories", "initial_support",
+           "physical_constants"]
 
 
 def units(tier):
@@ -389,7 +390,89 @@ def u_initial(ctx):
             ctx.violation(f"{name}-initial-clock-not-zero", {"t": ts})
 
 
+# ----------------------------------------------------------------- vector fields with other physical constants
+def u_constants(ctx):
+    """The physical constants are constructor arguments on the lerax side and instance attributes on the Gymnasium
+    side: with the same non-default constants on both sides the vector fields must still coincide (with the
+    defaults several of them are equal to one another, so a formula that uses the wrong one goes unnoticed)."""
+    import equinox as eqx
+    import gymnasium as gym
+    import jax
+    import jax.numpy as jnp
+    from lerax.env.classic_control import Acrobot, CartPole, MountainCar
+
+    u = lambda lo, hi: float(np.round(ctx.rng.uniform(lo, hi), 3))  # noqa: E731
+    dyn = eqx.filter_jit(lambda env, Y, A: jax.vmap(lambda y, a: env.dynamics(0.0, y, a))(Y, A))
+    N = ctx.n(150, 1000)
+    for rep in range(ctx.n(4, 20)):
+        # Acrobot
+        kw = dict(link_length_1=u(0.6, 1.6), link_length_2=u(0.6, 1.6), link_mass_1=u(0.5, 2.0), link_mass_2=u(0.5, 2.0),
+                  link_com_pos_1=u(0.3, 0.7), link_com_pos_2=u(0.3, 0.7), link_moi=u(0.5, 2.0))
+        env = Acrobot(**kw)
+        g = gym.make("Acrobot-v1").unwrapped
+        g.reset(seed=0)
+        g.LINK_LENGTH_1, g.LINK_LENGTH_2, g.LINK_MASS_1, g.LINK_MASS_2 = kw["link_length_1"], kw["link_length_2"], kw["link_mass_1"], kw["link_mass_2"]
+        g.LINK_COM_POS_1, g.LINK_COM_POS_2, g.LINK_MOI = kw["link_com_pos_1"], kw["link_com_pos_2"], kw["link_moi"]
+        Y = np.column_stack([ctx.rng.uniform(-np.pi, np.pi, N), ctx.rng.uniform(-np.pi, np.pi, N),
+                             ctx.rng.uniform(-4 * np.pi, 4 * np.pi, N), ctx.rng.uniform(-9 * np.pi, 9 * np.pi, N)]).astype(np.float32)
+        A = ctx.rng.integers(0, 3, N)
+        F = np.asarray(dyn(env, jnp.asarray(Y), jnp.asarray(A)), np.float64)
+        for i in range(N):
+            want = np.asarray(g._dsdt(np.append(Y[i].astype(np.float64), g.AVAIL_TORQUE[int(A[i])])))[:4]
+            ctx.monitor("nondefault_constant_states_judged")
+            sc = max(1.0, float(np.max(np.abs(want))))
+            if not np.all(np.abs(F[i] - want) <= 5e-4 * sc):
+                ctx.violation("acrobot-vector-field-differs-from-gymnasium", {"constants": kw, "y": Y[i], "a": int(A[i]), "got": F[i], "want": want})
+                break
+        ctx.case({"env": "Acrobot", "constants": kw}, nontrivial=True, cls="constants/acrobot")
+        # CartPole
+        kw = dict(gravity=u(5.0, 15.0), cart_mass=u(0.5, 2.0), pole_mass=u(0.05, 0.5), half_length=u(0.25, 1.0), force_mag=u(5.0, 20.0))
+        env = CartPole(**kw)
+        g = gym.make("CartPole-v1").unwrapped
+        g.reset(seed=0)
+        g.gravity, g.masscart, g.masspole, g.length, g.force_mag = kw["gravity"], kw["cart_mass"], kw["pole_mass"], kw["half_length"], kw["force_mag"]
+        g.total_mass, g.polemass_length = g.masspole + g.masscart, g.masspole * g.length
+        Y = np.column_stack([ctx.rng.uniform(-2.0, 2.0, N), ctx.rng.normal(0, 2, N), ctx.rng.uniform(-0.2, 0.2, N), ctx.rng.normal(0, 2, N)]).astype(np.float32)
+        A = ctx.rng.integers(0, 2, N)
+        F = np.asarray(dyn(env, jnp.asarray(Y), jnp.asarray(A)), np.float64)
+        tau = float(g.tau)
+        for i in range(N):
+            g.state = np.array(Y[i], dtype=np.float64)
+            g.steps_beyond_terminated = None
+            g.step(int(A[i]))
+            want = (np.asarray(g.state, np.float64) - Y[i].astype(np.float64)) / tau
+            ctx.monitor("nondefault_constant_states_judged")
+            if not _close(F[i], want, rtol=5e-4, atol=5e-4):
+                ctx.violation("cartpole-vector-field-differs-from-gymnasium", {"constants": kw, "y": Y[i], "a": int(A[i]), "got": F[i], "want": want})
+                break
+        ctx.case({"env": "CartPole", "constants": kw}, nontrivial=True, cls="constants/cartpole")
+        # MountainCar: force and gravity
+        kw = dict(force=u(0.0005, 0.003), gravity=u(0.001, 0.005))
+        env = MountainCar(**kw)
+        g = gym.make("MountainCar-v0").unwrapped
+        g.reset(seed=0)
+        g.force, g.gravity = kw["force"], kw["gravity"]
+        Y = np.column_stack([ctx.rng.uniform(-1.1, 0.4, N), ctx.rng.uniform(-0.03, 0.03, N)]).astype(np.float32)
+        A = ctx.rng.integers(0, 3, N)
+        F = np.asarray(dyn(env, jnp.asarray(Y), jnp.asarray(A)), np.float64)
+        for i in range(N):
+            g.state = np.array(Y[i], dtype=np.float64)
+            g.step(int(A[i]))
+            s1 = np.asarray(g.state, np.float64)
+            if abs(s1[1]) >= 0.07 * (1 - 1e-6) or not (-1.2 + 1e-9 < s1[0] < 0.6 - 1e-9):
+                continue  # velocity clip or wall rule active: the update is not the plain field
+            acc = s1[1] - float(Y[i][1])
+            ctx.monitor("nondefault_constant_states_judged")
+            if abs(F[i][1] - acc) > 1e-6 + 1e-3 * abs(acc):
+                ctx.violation("mountaincar-vector-field-differs-from-gymnasium", {"constants": kw, "y": Y[i], "a": int(A[i]), "got": F[i], "want": [float(Y[i][1]), acc]})
+                break
+        ctx.case({"env": "MountainCar", "constants": kw}, nontrivial=True, cls="constants/mountaincar")
+    ctx.require("nondefault_constant_states_judged", 500)
+
+
 def run_unit(name, ctx):
+    if name == "physical_constants":
+        return u_constants(ctx)
     if name.startswith("mj-"):
         from checks.c17_mujoco import run_mujoco_unit
 
